@@ -425,6 +425,7 @@ def check(ctx, report):
         last = f.node.body[-1]
         if not isinstance(last, ast.Return) or last.value is None:
             report.add('C14.R4', f.construct + '@return', '_asdict can fall off its end (returns None)')
+    finite_numbers(ctx, report)
     report.floor('C14.R1', 20, 'iteration obligations')
     report.floor('C14.R4', 15, '_asdict overrides')
 
@@ -457,3 +458,63 @@ def literal_template(t, fnode, depth=0):
                 other = True
         return bool(binds) and not other and all(literal_template(b, fnode, depth + 1) for b in binds)
     return False
+
+
+# ---- R10: floating point fields hold numbers JSON can express ----------------------------------------------------------------
+
+def finite_numbers(ctx, report, RULE='C14.R10'):
+    """JSON has no NaN and no infinities: ``json.dumps`` writes them as bare words a standard parser refuses.  Every attrs
+    field that holds a float (converter ``float``, or ``instance_of(float)``) therefore has to refuse non-finite values when the
+    object is built - decided by evaluating the class's ``__attrs_post_init__`` (sa.miniexec) on nan, +inf, -inf and on ordinary
+    numbers: the first three must raise, the others must not."""
+    from ..miniexec import Evaluator, Obj, Raised, Unsupported, class_call_hook, exception_values
+    model = ctx.model
+    report.rule(RULE, 'float valued fields refuse NaN and the infinities (JSON cannot express them), and accept ordinary numbers')
+    classes = []
+    for c in model.all_classes:
+        for fld in getattr(c, 'own_fields', []):
+            conv = ast.unparse(fld.converter_node) if fld.converter_node is not None else ''
+            val = ast.unparse(fld.validator_node) if fld.validator_node is not None else ''
+            if conv == 'float' or 'instance_of(float)' in val:
+                classes.append((c, fld))
+    if not classes:
+        report.error(RULE + ': no float valued field found any more (FieldValueComponentFloat.value was one)')
+        return
+    for c, fld in classes:
+        report.count(RULE)
+        post = c.resolve('__attrs_post_init__')
+        where = '%s@field[%s]' % (c.construct, fld.name)
+        if post is None:
+            report.add(RULE, where, 'the float valued field %s.%s accepts NaN and the infinities (no check when the object is built): as_json() then writes the bare words '
+                       'NaN / Infinity, which a standard JSON parser refuses; a NEL header with "success_fraction": NaN or 1e999 is such an object' % (c.name, fld.name))
+            continue
+        report.touch(post)
+        hook = class_call_hook(c, exception_values('InvalidValue'), model)
+
+        def names(name):
+            if name == 'float':
+                return float
+            raise Unsupported('free name ' + name)
+        nh = hook.name_hook_for(post.module, names)
+        try:
+            bad = []
+            for v in (float('nan'), float('inf'), float('-inf')):
+                try:
+                    Evaluator({'self': Obj(**{fld.name: v})}, hook, nh).function(post.node)
+                    bad.append(repr(v))
+                except Raised:
+                    pass
+            refused = []
+            for v in (0.0, 0.5, 1.0):
+                try:
+                    Evaluator({'self': Obj(**{fld.name: v})}, hook, nh).function(post.node)
+                except Raised:
+                    refused.append(repr(v))
+        except Unsupported as e:
+            report.add(RULE, where, '__attrs_post_init__ of %s left the subset the evaluation understands: %s' % (c.name, e))
+            continue
+        if bad:
+            report.add(RULE, where, '%s.%s accepts %s: as_json() writes a bare word a standard JSON parser refuses' % (c.name, fld.name, ', '.join(bad)))
+        if refused:
+            report.add(RULE, where + '[ordinary]', '%s.%s refuses the ordinary number %s' % (c.name, fld.name, ', '.join(refused)))
+    report.floor(RULE, 1, 'float valued fields')
